@@ -535,10 +535,10 @@ func c16ExitOracle(c *checker, sc scenario, res runResult, op, ans string) {
 				faulty = true
 			}
 			if faulty && !named && named2(res.stderr, p.name) {
-				c.rep.Notes = appendOnce(c.rep.Notes, "a goodbye failure was attributed to the plugin by name: finding D31 appears repaired")
+				c.rep.Notes = appendOnce(c.rep.Notes, "a goodbye failure was attributed to the plugin by name: finding D41 appears repaired")
 			}
 			if byeFails && !named && !named2(res.stderr, p.name) && res.exit != 0 {
-				knownD31(c, sc, p, res)
+				knownD41(c, sc, p, res)
 			}
 		}
 		if faulty {
@@ -572,11 +572,11 @@ func appendOnce(xs []string, s string) []string {
 	return append(xs, s)
 }
 
-var d31Once sync.Once
+var d41Once sync.Once
 
-func knownD31(c *checker, sc scenario, p pluginSpec, res runResult) {
-	d31Once.Do(func() {
-		c.rep.Known = append(c.rep.Known, report.Known{ID: "D31", What: "a plugin whose goodbye call fails makes thriftrw exit 1 with an error that does not name the plugin (" + sc.label + ", plugin " + p.name + ": " + firstLine(res.stderr) + ")"})
+func knownD41(c *checker, sc scenario, p pluginSpec, res runResult) {
+	d41Once.Do(func() {
+		c.rep.Known = append(c.rep.Known, report.Known{ID: "D41", What: "a plugin whose goodbye call fails makes thriftrw exit 1 with an error that does not name the plugin (" + sc.label + ", plugin " + p.name + ": " + firstLine(res.stderr) + ")"})
 	})
 }
 
